@@ -220,6 +220,11 @@ def st_class_case(draw):
     # constructions of every class (abstractness, constructor arguments)
     for ci in range(len(prog["classes"])):
         case["ops"].append({"op": "new", "cls": ci, "k": 10 + ci, "args": {}})
+        # the same constructor arguments by keyword only, and positionally (both must behave as in the twin,
+        # including the TypeError of classes that take no arguments)
+        case["ops"].append({"op": "new", "cls": ci, "k": 20 + ci, "args": {"x": "a:kx"}})
+        case["ops"].append({"op": "new", "cls": ci, "k": 30 + ci, "args": {"x": "a:px"}, "positional": ["x"]})
+        case["ops"].append({"op": "new", "cls": ci, "k": 40 + ci, "args": {"x": "a:px", "y": "a:ky"}, "positional": ["x"]})
     case["part"] = "B"
     return case
 
